@@ -1,1 +1,224 @@
-print("placeholder")
+#!/venv/bin/python
+"""Driver for the deterministic-simulation checks of heuer/segno.
+
+  check.py <C03|C08|C12|C14|C15> [--tier quick|thorough] [--budget-s N] [--runs N] [--jobs N]
+  check.py <id> --replay replays/<file>.json
+  check.py selftest [determinism]
+
+Exit 0: property held on everything explored (KNOWN-FINDING lines allowed).
+Exit 1: at least one line `VIOLATION property=<id> replay=<path>`.
+Exit 2: harness error (worker died, wall-clock cap, ...) -- never conflated with a violation.
+"""
+import argparse
+import importlib
+import os
+import sys
+import time
+
+if os.environ.get('PYTHONHASHSEED') is None:
+    os.environ['PYTHONHASHSEED'] = '0'
+    os.execv(sys.executable, [sys.executable] + sys.argv)
+
+HERE = os.path.dirname(os.path.abspath(__file__))
+sys.path.insert(0, HERE)
+from sim import core  # noqa: E402
+
+PROPS = ('C03', 'C08', 'C12', 'C14', 'C15')
+COMPONENTS = {
+    'C03': {'real': ['segno.make', 'segno.encoder', 'segno.consts'], 'stub': ['sim.channel (medium)', 'sim.refqr (receiver/oracle)']},
+    'C08': {'real': ['segno.make_sequence', 'segno.encoder', 'segno.consts'],
+            'stub': ['sim.channel (medium)', 'sim.refqr + reference reassembler (receiver/oracle)']},
+    'C12': {'real': ['segno.make*', 'segno.QRCode/QRCodeSequence.save/terminal/*_data_uri/svg_inline', 'segno.writers', 'segno.cli.main'],
+            'stub': ['SimFS (writers.open, gzip.open)', 'SimClock (writers.time, gzip time)', 'SimProc (argv, stdout, stderr, exit status)', 'SimStream sinks']},
+    'C14': {'real': ['segno.cli.main', 'segno.make*', 'segno.writers'],
+            'stub': ['SimFS with fault plans', 'SimProc', 'step clock (sys.settrace line events)']},
+    'C15': {'real': ['all of segno.* executed in real threads'],
+            'stub': ['baton scheduler (sys.settrace / sys.monitoring pre-emption)', 'SimFS', 'SimClock', 'SimProc', 'SimStream']},
+}
+
+
+def load(prop):
+    return importlib.import_module('sim.' + prop.lower())
+
+
+def _exec_index(mod, seed, tier, i):
+    sc = mod.gen_scenario(seed, i, tier)
+    return mod.execute(sc)
+
+
+def same_clause_fails(mod, clause, timeout):
+    def fails(sc):
+        try:
+            r = core.run_forked(mod.execute, (sc,), timeout=timeout)
+        except core.HarnessError:
+            return False
+        return any(v['clause'] == clause and mod.known(r.get('scenario', sc), v) is None for v in r['violations'])
+    return fails
+
+
+def run_check(prop, tier, seed, budget_s, n_runs, jobs):
+    mod = load(prop)
+    t0 = time.time()
+    params = mod.tier_params(tier) if hasattr(mod, 'tier_params') else {}
+    if n_runs is None:
+        n_runs = params.get('runs')
+    if budget_s is None:
+        budget_s = params.get('budget_s')
+    run_timeout = params.get('run_timeout', 300.0)
+    wall_cap = params.get('wall_cap', (budget_s or 600) * 3 + 600)
+    min_runs = params.get('min_runs', 1)
+    print('check %s tier=%s VERIF_SEED=%d runs=%s budget_s=%s jobs=%d repo=%s' % (prop, tier, seed, n_runs, budget_s, jobs, core.REPO))
+    sys.stdout.flush()
+    results, errors = core.run_batch(lambda i: _exec_index(mod, seed, tier, i), n_runs=n_runs, budget_s=budget_s,
+                                     jobs=jobs, run_timeout=run_timeout, wall_cap=wall_cap, min_runs=min_runs)
+    counters = {}
+    digests = set()
+    nontrivial_digests = set()
+    samples = []
+    viols = []
+    for i in sorted(results):
+        r = results[i]
+        core.merge_counters(counters, r.get('counters', {}))
+        d = r.get('digest')
+        digests.add(d)
+        if r.get('nontrivial'):
+            nontrivial_digests.add(d)
+            if len(samples) < 3 and r.get('sample') is not None:
+                samples.append({'run': i, 'seed': core.derive_seed(seed, prop, i), **r['sample']})
+        for v in r.get('violations', []):
+            viols.append((i, r.get('scenario'), v))
+    if not samples:
+        for i in sorted(results):
+            if results[i].get('sample') is not None:
+                samples.append({'run': i, **results[i]['sample']})
+                break
+    # ---- classify violations
+    known_lines = {}
+    new = []
+    for i, sc, v in viols:
+        k = mod.known(sc, v)
+        if k is not None:
+            known_lines.setdefault(k['id'], k)
+            k_count = counters.setdefault('known_findings_matched', {})
+            k_count[k['id']] = k_count.get(k['id'], 0) + 1
+        else:
+            new.append((i, sc, v))
+    for k in known_lines.values():
+        print('KNOWN-FINDING: property=%s %s' % (prop, k['what']))
+    reported = 0
+    seen_sig = set()
+    replay_paths = []
+    for i, sc, v in new:
+        sig = (v['clause'], mod.signature(sc, v) if hasattr(mod, 'signature') else v['msg'][:60])
+        if sig in seen_sig or reported >= 5:
+            continue
+        seen_sig.add(sig)
+        reported += 1
+        fails = same_clause_fails(mod, v['clause'], run_timeout)
+        small = sc
+        minimised = False
+        try:
+            if fails(sc):
+                small = mod.minimise(sc, v, fails)
+                minimised = True
+        except Exception as ex:  # minimiser trouble must not hide the violation
+            print('note: minimiser failed (%s: %s); raw scenario kept' % (type(ex).__name__, ex))
+            small = sc
+        # final replay of the minimised record in a fresh child: it must reproduce
+        try:
+            rr = core.run_forked(mod.execute, (small,), timeout=run_timeout)
+            vv = [x for x in rr['violations'] if x['clause'] == v['clause']]
+        except core.HarnessError:
+            vv = []
+        if not vv:
+            small, vv, minimised = sc, [v], False
+            rr = {'digest': results[i].get('digest')}
+        rec = {'property': prop, 'clause': v['clause'], 'seed': core.derive_seed(seed, prop, i), 'batch_seed': seed,
+               'run_index': i, 'tier': tier, 'minimised': minimised, 'scenario': small,
+               'expect': {'digest': rr.get('digest'), 'msg': vv[0]['msg']}}
+        path = core.write_replay(prop, rec['seed'], rec)
+        replay_paths.append(path)
+        print('  %s: %s' % (v['clause'], vv[0]['msg']))
+        print('VIOLATION property=%s replay=%s' % (prop, path))
+    for i, text in errors[:10]:
+        print('HARNESS-ERROR run=%s %s' % (i, text.strip().splitlines()[-1] if text.strip() else text))
+        if os.environ.get('VERIF_DEBUG'):
+            print(text)
+    wall = time.time() - t0
+    n = len(results)
+    coverage = {
+        'evaluations': n,
+        'distinct_nontrivial': len(nontrivial_digests),
+        'rule': mod.coverage_rule(),
+        'samples': samples,
+        'distinct_digests': len(digests),
+        'runs_per_hour': int(n / wall * 3600) if wall > 0 else 0,
+        'seeds_per_hour': int(n / wall * 3600) if wall > 0 else 0,
+        'counters': counters,
+        'components': COMPONENTS[prop],
+        'harness_errors': len(errors),
+        'new_violation_runs': len(new),
+        'jobs': jobs,
+    }
+    if hasattr(mod, 'finish_coverage'):
+        mod.finish_coverage(coverage, counters)
+    core.write_evidence(prop, tier, seed, coverage, wall, len(new), mod.ASSUMPTIONS)
+    print('%s: %d runs, %d distinct non-trivial, %d violation run(s), %d known-finding match(es), %d harness error(s), %.1fs'
+          % (prop, n, len(nontrivial_digests), len(new), sum(counters.get('known_findings_matched', {}).values()), len(errors), wall))
+    if new:
+        return 1
+    if errors or n == 0:
+        return 2
+    return 0
+
+
+def run_replay(prop, path):
+    mod = load(prop)
+    rec = core.load_json(path)
+    sc = rec['scenario']
+    r = core.run_forked(mod.execute, (sc,), timeout=600)
+    hits = [v for v in r['violations'] if v['clause'] == rec['clause']]
+    print('replay %s: clause %s, digest %s (expected %s)' % (path, rec['clause'], r.get('digest'), rec['expect'].get('digest')))
+    for v in r['violations']:
+        print('  %s: %s' % (v['clause'], v['msg']))
+    if hits:
+        k = mod.known(r.get('scenario', sc), hits[0])
+        if k is not None:
+            print('KNOWN-FINDING: property=%s %s' % (prop, k['what']))
+            return 0
+        print('VIOLATION property=%s replay=%s' % (prop, path))
+        return 1
+    print('replay did not reproduce the violation on this tree')
+    return 0
+
+
+def main():
+    ap = argparse.ArgumentParser()
+    ap.add_argument('what')
+    ap.add_argument('sub', nargs='?')
+    ap.add_argument('--tier', default=os.environ.get('VERIF_TIER') or 'quick', choices=('quick', 'thorough'))
+    ap.add_argument('--budget-s', type=float, default=None)
+    ap.add_argument('--runs', type=int, default=None)
+    ap.add_argument('--jobs', type=int, default=int(os.environ.get('VERIF_JOBS') or min(16, os.cpu_count() or 1)))
+    ap.add_argument('--replay', default=None)
+    args = ap.parse_args()
+    seed = int(os.environ.get('VERIF_SEED') or core.DEFAULT_SEED)
+    if args.what == 'selftest':
+        from sim import selftest
+        return selftest.main(args.sub, seed, args.jobs)
+    prop = args.what.upper()
+    if prop not in PROPS:
+        ap.error('unknown property %s (claimed: %s)' % (prop, ', '.join(PROPS)))
+    if args.replay:
+        return run_replay(prop, args.replay)
+    return run_check(prop, args.tier, seed, args.budget_s, args.runs, args.jobs)
+
+
+if __name__ == '__main__':
+    try:
+        code = main()
+    except core.HarnessError as ex:
+        print('HARNESS-ERROR %s' % ex)
+        code = 2
+    sys.stdout.flush()
+    sys.exit(code)
